@@ -5,6 +5,10 @@ from vlib.sf import Crash, guard, nonmeta
 from vlib.tmap import slicemap_problems
 
 
+FATAL_OK = ("Couldn't find closing bracket", "Found unexpected end bracket", "Maximum parse depth exceeded",
+            "Maximum parse node count exceeded")
+
+
 def outermost_unparsables(seg):
     """Independent walk: unparsable nodes that are not inside another unparsable."""
     out = []
@@ -79,6 +83,14 @@ class C02(Check):
                 out.label("no-tree")
                 if not prs and not pv.lexing_violations:
                     out.fail("no tree and no PRS/LXR violation", clause="notree-silent", variant=var)
+                # The only documented reasons for refusing to build a tree are bracket mismatches and the
+                # depth/node limits.  Anything else (in particular the parser's own "Parse completeness check
+                # fail", i.e. it noticed that it lost or duplicated text) is discarded code.
+                for e in prs:
+                    d = e.desc() or ""
+                    if not any(d.startswith(ok) for ok in FATAL_OK):
+                        out.fail(f"no tree: {d[:160]}", clause="notree-unexpected-prs", variant=var,
+                                 cause="completeness-check" if "completeness check" in d else "other")
                 continue
             tree = pv.tree
             if tree.raw != tf.templated_str:
